@@ -14,7 +14,8 @@
 EXTENDS ChessRules, Json, IOUtils
 
 CONSTANTS MaxPly,      \* depth bound of the exploration
-          EmitOn,      \* TRUE: print one JSON line per state
+          EmitOn,      \* TRUE: print one JSON line per expanded state
+          EmitLight,   \* TRUE: the line carries only the position text (for C11/C14/... inputs)
           CheckMirror, \* TRUE: check Legal(Mirror(p)) = Mirror(Legal(p)) on every expanded state
           WeakenSeeds  \* TRUE: also start from every seed with any subset of its castling rights
                        \* and/or its e.p. square dropped ("unusual right / e.p. combinations")
@@ -63,7 +64,8 @@ StateRec ==
                  mate |-> (L = {} /\ InCheck(pos)),
                  stale |-> (L = {} /\ ~InCheck(pos))]]
 
-Emit == EmitOn => PrintT(<<"@@", ToJson(StateRec)>>)
+LightRec == [k |-> "P", root |-> root, ply |-> ply, fen |-> ToFEN4(pos)]
+Emit == EmitOn => PrintT(<<"@@", IF EmitLight THEN ToJson(LightRec) ELSE ToJson(StateRec)>>)
 
 Expand == /\ Assert(Valid(pos), <<"rules specification: reached an invalid position", ToFEN4(pos)>>)
           /\ Assert(UciInjective, <<"UCI text does not identify a move", ToFEN4(pos)>>)
